@@ -73,7 +73,7 @@ impl Mul<BoxedUint> for BoxedUint {
     type Output = BoxedUint;
 
     fn mul(self, rhs: BoxedUint) -> Self {
-        BoxedUint::mul(&self, &rhs)
+        Mul::mul(&self, &rhs)
     }
 }
 
@@ -81,7 +81,7 @@ impl Mul<&BoxedUint> for BoxedUint {
     type Output = BoxedUint;
 
     fn mul(self, rhs: &BoxedUint) -> Self {
-        BoxedUint::mul(&self, rhs)
+        Mul::mul(&self, rhs)
     }
 }
 
@@ -89,7 +89,7 @@ impl Mul<BoxedUint> for &BoxedUint {
     type Output = BoxedUint;
 
     fn mul(self, rhs: BoxedUint) -> Self::Output {
-        BoxedUint::mul(self, &rhs)
+        Mul::mul(self, &rhs)
     }
 }
 
@@ -110,7 +110,7 @@ impl MulAssign<BoxedUint> for BoxedUint {
 
 impl MulAssign<&BoxedUint> for BoxedUint {
     fn mul_assign(&mut self, rhs: &BoxedUint) {
-        *self = self.clone().mul(rhs)
+        *self = Mul::mul(&*self, rhs)
     }
 }
 
